@@ -92,7 +92,7 @@ def run_driver(chk, beh, label, flavour="plain"):
             if e["op"] == "reset" and "bi" in e:
                 e["bi"] += base
         crashed = ["# harness=inputs label=%s" % label] + ["SCRIPT " + ln for ln in beh[min(len(beh) - 1, base + max(sum(1 for e in events if e["op"] == "reset"), 1) - 1)]]
-        if rc not in (0, 3):
+        if rc not in (0, 3, 6):        # 3: an exception escaped (event `terminated`), 6: an operation never returned (event `hung`)
             # sanitizer abort or crash: report with the operations executed so far
             kind = "sanitizer" if "Sanitizer" in out or "runtime error" in out else "killed-by-signal/SIGPIPE" if rc in (141, -13) else "killed-by-signal/%d" % (-rc if rc < 0 else rc - 128) if (rc < 0 or rc > 128) else "crash-rc%d" % rc
             if rc in (141, -13):
